@@ -1,7 +1,13 @@
 """C07 - Written LAMMPS data/dump and POSCAR files are well formed and describe the system.
 
-Every file is produced through System.dump(...) as a string and read back by the independent readers in
-pbt/oracles (lammps_data, lammps_dump, poscar; unit table lammps_units).  Nothing of atomman.load is used.
+Every file is produced through System.dump(...) as a string (or into an io.StringIO: no disk I/O) and read back
+by the independent readers in pbt/oracles (lammps_data, lammps_dump, poscar; unit table lammps_units).  Nothing of
+atomman.load is used.
+
+Listed findings: a disagreement that belongs to an `open:` key of known_findings.txt is collected (class Known)
+and raised only after all other checks of the case have run, so the rest of the oracle stays active behind it;
+blocking ones (the writer raises) are raised at once.  The share guards of the two clauses that are blocked as a
+whole on the unchanged tree (poscar, snippet) are switched on only when the tree under test lets them through.
 """
 import functools
 import io
@@ -42,7 +48,7 @@ LEVEL_TEXT = ("Generated systems x atom styles x unit styles x float formats wri
               "'poscar') and read by independent parsers: structure, counts, bounds/tilt conventions, ids, containment, "
               "and every column against the snapshot converted with an independent unit table, to the printed precision.")
 TECHNIQUE = "independent LAMMPS data/dump and POSCAR readers + LAMMPS-manual unit table; printed-precision interval comparison"
-WALL = {'quick': 70, 'thorough': 600}
+WALL = {'quick': 60, 'thorough': 540}
 
 EPS = 2.3e-16
 
